@@ -265,7 +265,7 @@ func (p *PX) byteCall(x *ssa.Call, fr *pxFrame, st *pxState) {
 	default:
 		// library code that receives a tracked buffer may write into it
 		// (io.ReadFull, utf8.EncodeRune …): its content is no longer known
-		if !p.w.inPkg(sc) && !strings.HasSuffix(name, ".Write") {
+		if !p.w.inPkg(sc) && !strings.HasSuffix(name, ".Write") && !readOnlyExternal(sc) && !byteOrderGetter(sc) {
 			p.clobberByteArgs(x, fr, st)
 		}
 	case "bytes.NewBuffer":
@@ -301,9 +301,22 @@ func (p *PX) byteCall(x *ssa.Call, fr *pxFrame, st *pxState) {
 		// the buffer is overwritten with octets of the stream: unknown values
 		if len(x.Call.Args) >= 2 {
 			if dst := p.byteSeqOf(x.Call.Args[1], fr, st); dst != nil {
+				// when the number of octets consumed so far on this path is known the
+				// octets are named by their position in the stream (<in@k>), so that a
+				// rule can relate them to what an encoder wrote at that position
+				pos, known := p.inPos(st)
 				for i := range dst.Oct {
-					dst.Oct[i] = &Term{K: TLeaf, T: types.Typ[types.Uint8], key: fmt.Sprintf("<in:%s%s#%d>", key, p.iterTag(fr, x, st), i)}
+					if known {
+						dst.Oct[i] = &Term{K: TLeaf, T: types.Typ[types.Uint8], key: fmt.Sprintf("<in@%d>", pos+i)}
+					} else {
+						dst.Oct[i] = &Term{K: TLeaf, T: types.Typ[types.Uint8], key: fmt.Sprintf("<in:%s%s#%d>", key, p.iterTag(fr, x, st), i)}
+					}
 				}
+				if known {
+					p.setInPos(st, pos+len(dst.Oct))
+				}
+			} else {
+				p.setInPos(st, -1)
 			}
 		}
 	case "(encoding/binary.bigEndian).PutUint16", "(binary.bigEndian).PutUint16":
@@ -388,4 +401,57 @@ func (p *PX) bufferOf(v ssa.Value, fr *pxFrame, st *pxState) *ByteSeq {
 		return st.bseq[fr.id+regName(x)]
 	}
 	return nil
+}
+
+// inPos: the number of payload octets read from the stream so far on this
+// path, if every read so far had a known size.
+func (p *PX) inPos(st *pxState) (int, bool) {
+	v, ok := st.vals["__inpos"]
+	if !ok {
+		return 0, true
+	}
+	if v.K != TConst || v.C.Sign() < 0 {
+		return 0, false
+	}
+	return int(v.C.Int64()), true
+}
+
+func (p *PX) setInPos(st *pxState, n int) {
+	c := big.NewInt(int64(n))
+	st.vals["__inpos"] = &Term{K: TConst, C: c, T: types.Typ[types.Int], key: c.String()}
+}
+
+// beTerm: the big-endian composition of octets as a term of type t:
+// ((t(o0) << 8(n-1)) | … | t(o[n-1])).
+func beTerm(oct []*Term, t types.Type) *Term {
+	var acc *Term
+	n := len(oct)
+	for i, o := range oct {
+		if o == nil {
+			return nil
+		}
+		x := &Term{K: TConv, A: o, T: t, key: "conv:" + types.TypeString(t, nil) + "(" + o.key + ")"}
+		if sh := 8 * (n - 1 - i); sh > 0 {
+			c := &Term{K: TConst, C: big.NewInt(int64(sh)), T: types.Typ[types.Uint], key: fmt.Sprint(sh)}
+			x = &Term{K: TBin, Op: token.SHL, A: x, B: c, T: t, key: "(" + x.key + " << " + c.key + ")"}
+		}
+		if acc == nil {
+			acc = x
+		} else {
+			acc = &Term{K: TBin, Op: token.OR, A: acc, B: x, T: t, key: "(" + acc.key + " | " + x.key + ")"}
+		}
+	}
+	return acc
+}
+
+// byteOrderGetter: encoding/binary's ByteOrder.UintNN methods only read the buffer.
+func byteOrderGetter(sc *ssa.Function) bool {
+	if sc == nil || sc.Pkg == nil || sc.Pkg.Pkg.Path() != "encoding/binary" || sc.Signature.Recv() == nil {
+		return false
+	}
+	switch sc.Name() {
+	case "Uint16", "Uint32", "Uint64":
+		return true
+	}
+	return false
 }
